@@ -142,6 +142,24 @@ pub fn rtxout(rng: &mut ChaCha20Rng, f: Feat, tags: &mut Vec<String>) -> TxOut {
     }
     o
 }
+/// witness fields that exist independently of the input's flags (legal at the consensus level): a peg-in witness stack on an input that is not
+/// a peg-in, issuance range proofs on an input without an issuance
+pub fn stray_witness(rng: &mut ChaCha20Rng, tx: &mut Transaction, tags: &mut Vec<String>) {
+    if tx.input.is_empty() { return; }
+    let k = rng.gen_range(0..tx.input.len());
+    let i = &mut tx.input[k];
+    if !i.is_pegin && rng.gen_range(0..3) != 0 { let n0 = pk!(rng, [0usize, 1, 33, 253]); i.witness.pegin_witness = vec![rbytes(rng, n0), rbytes(rng, 2)]; tags.push("stray:pegin_witness".into()); }
+    if !i.has_issuance() && rng.gen_range(0..2) == 0 {
+        if rng.gen_range(0..2) == 0 { i.witness.amount_rangeproof = Some(rrangeproof(rng)); tags.push("stray:amount_rp".into()); }
+        else { i.witness.inflation_keys_rangeproof = Some(rrangeproof(rng)); tags.push("stray:keys_rp".into()); }
+    }
+}
+/// rtx, one time in three with stray witness fields
+pub fn rtx_stray(rng: &mut ChaCha20Rng, f: Feat, tags: &mut Vec<String>) -> Transaction {
+    let mut t = rtx(rng, f, tags);
+    if !f.no_witness && rng.gen_range(0..3) == 0 { stray_witness(rng, &mut t, tags); }
+    t
+}
 pub fn rtx(rng: &mut ChaCha20Rng, f: Feat, tags: &mut Vec<String>) -> Transaction {
     let mut nin = pk!(rng, [0usize, 1, 1, 2, 3, 5]);
     let mut nout = pk!(rng, [0usize, 1, 1, 2, 3, 6]);
